@@ -1,5 +1,6 @@
 import HeimdallModel.Lemmas.Jwt
 import HeimdallModel.Lemmas.JwtRegistered
+import HeimdallModel.Lemmas.JwtProcess
 /-!
 # C05 — JWT authentication accepts exactly the correctly signed, asserted tokens
 
@@ -756,5 +757,82 @@ is indexed by what the templated url renders to -/
 example :
     run cfgT none [(worldT, .token tok₀, now₀), (worldT, .token (tokWith (("iss", .str "B") :: claims₀)), now₀)] [] =
       [.accepted "4711" (.obj [("id", .num 4711 0), ("name", .str "Alice")]), .rejected .signature] := by rfl
+
+/-! ## Among the other mechanisms of the process (round 6)
+
+A process holds many mechanisms: further `jwt` authenticators, `oauth2_introspection` authenticators (the same
+`oauth2.Expectation`), rule-level copies.  "The allowed list" of the property is the authenticator's **own** list —
+the one configured at rule level, else at mechanism level, else the documented default — whatever lists the
+neighbours configure and whenever they are created (`Model/JwtProcess.lean`). -/
+
+/-- **Creating mechanisms leaves the default algorithms alone**: after any number of creations, of any type, with
+any configured lists at mechanism and rule level, the next reader of the defaults gets what the first one got. -/
+theorem c05_creating_mechanisms_keeps_defaults (ns : List Neighbour) (p : Process) :
+    (ns.foldl Process.create p).defaults = p.defaults := Process.foldl_create_defaults ns p
+
+/-- **Other mechanisms are invisible.**  For every history of the process — neighbours created before the
+authenticator, between two of its requests, after them — the requests are answered exactly as by the authenticator
+alone (`run`, about which all theorems above speak). -/
+theorem c05_other_mechanisms_are_invisible (cfg : Config) (rule : Option Expectation) (events : List Event) :
+    runIn cfg rule events {} [] = run cfg rule (requestsOf events) [] :=
+  runIn_eq_run cfg rule events {} [] rfl
+
+/-- **The allowed list is the authenticator's own.**  In every history of the process, a request that yields a
+subject carried a token whose `alg` is in the list in force for *this* authenticator (rule level, else mechanism
+level, else `Gen.defaultAllowed`), and a key of a key set served for it declares that very algorithm and verifies
+the signature — no matter which algorithms the neighbours allow. -/
+theorem c05_allowed_algorithms_are_ones_own (cfg : Config) (rule : Option Expectation) (events : List Event)
+    (i : Nat) (hi : i < (requestsOf events).length) (id : String) (attrs : Val)
+    (h : (runIn cfg rule events {} [])[i]? = some (.accepted id attrs)) :
+    ∃ (tok : Token) (md : Metadata) (w' : World), (requestsOf events)[i].2.1 = .token tok ∧ w' ∈ ((requestsOf events).take (i + 1)).map (·.1) ∧
+      tok.alg ∈ (Spec.inForce cfg rule md.issuer).algs ∧
+      ∃ kvs ks k, tok.payload = some (.obj kvs) ∧ w'.jwks (Spec.endpoint cfg kvs) = some ks ∧ k ∈ ks ∧
+        k.alg = tok.alg ∧ tok.sigOk k.mat = true := by
+  rw [c05_other_mechanisms_are_invisible] at h
+  obtain ⟨w', hw', hrun⟩ := c05_history_sound cfg rule (requestsOf events) i hi
+  rw [hrun] at h
+  obtain ⟨tok, kvs, md, ks, k, a, hp, hpl, _, ha, hjw, hk, hsig, halg, hallowed, _⟩ :=
+    c05_sound (Option.some.inj h)
+  subst ha
+  exact ⟨tok, md, w', hp, hw', halg ▸ hallowed, kvs, ks, k, hpl, hjw, hk, halg, hsig⟩
+
+/-- the list in force when neither level configures one: the documented default, in any process -/
+theorem c05_unconfigured_list_is_the_default (cfg : Config) (rule : Option Expectation) (mi : String)
+    (hc : cfg.assertions.algs = []) (hr : ∀ r, rule = some r → r.algs = []) :
+    (Spec.inForce cfg rule mi).algs = Gen.defaultAllowed := by
+  rw [← c05_effective_is_first_set]
+  cases rule with
+  | none => simp [effective, Expectation.merge, hc]
+  | some r => simp [effective, Expectation.merge, hc, hr r rfl]
+
+/-- an authenticator relying on the default list, a key set with an RS256 and an ES256 key -/
+def cfgD : Config := { assertions := { issuers := ["https://idp.example.com"] } }
+
+def tokRS : Token :=
+  { alg := "RS256", kid := "k9", payload := some (.obj claims₀), sigOk := fun m => m == 0 }
+
+/-- an introspection authenticator of another identity provider which allows RS256 only, one with a rule-level
+list, and a further jwt authenticator -/
+def neighbours₀ : List Neighbour :=
+  [{ kind := .introspection, algs := ["RS256"] },
+   { kind := .introspection, algs := ["PS256", "RS256"], ruleAlgs := some ["HS256"] },
+   { kind := .jwt, algs := ["EdDSA"] }]
+
+/-- created before, between and after the requests: the RS256 token is refused (RS256 is not in the default list),
+the ES256 token is accepted, each time -/
+example :
+    runIn cfgD none
+      ([.create neighbours₀[0], .request world₀ (.token tokRS) now₀, .request world₀ (.token tok₀) now₀] ++
+        neighbours₀.map .create ++ [.request world₀ (.token tokRS) now₀, .request world₀ (.token tok₀) now₀]) {} [] =
+      [.rejected .algNotAllowed, .accepted "alice" (Val.obj claims₀).round,
+       .rejected .algNotAllowed, .accepted "alice" (Val.obj claims₀).round] := by rfl
+
+/-- what the neighbours hold is their own -/
+example : (neighbours₀.foldl Process.create {}).held =
+    [["RS256"], ["PS256", "RS256"], ["HS256"], ["EdDSA"]] ∧
+    (neighbours₀.foldl Process.create {}).defaults = Gen.defaultAllowed := by decide
+
+example : (Spec.inForce cfgD none "").algs = Gen.defaultAllowed :=
+  c05_unconfigured_list_is_the_default cfgD none "" rfl (fun _ h => nomatch h)
 
 end Heimdall.Props.C05
